@@ -87,6 +87,30 @@ def intlit_correspondence(rng, n, disagreements, spec_failures, model_available)
             continue
         terms.append("enc_opt (read_value %s)" % zlist([ord(c) for c in t]))
         metas.append(("read", t, [1, r[0]] if r is not None else [0]))
+    # registers: "R" + str(index) as printed by str(op), and register_to_index on the texts a REGISTER token can have
+    from hera.utils import HERAError, register_to_index
+    st["register_texts"] = 0
+    for n_ in range(16):
+        try:
+            ops, msgs = parse("SETLO(R%d, 1)" % n_, settings=Settings(color=False))
+            shown = str(ops[0])[len("SETLO("):].split(",")[0]
+        except BaseException as e:  # noqa
+            shown = "raise " + type(e).__name__
+        terms.append("print_register %d" % n_)
+        metas.append(("register", n_, [ord(c) for c in shown]))
+    names = ["R%d" % k for k in range(0, 21)] + ["r%d" % k for k in range(0, 17)] + ["r007", "R015", "R016", "r00", "R99999", "sp", "SP", "Sp",
+             "fp", "FP", "rt", "Rt", "RT", "pc_ret", "PC_ret", "PC_RET", "fp_alt", "FP_alt", "Fp_Alt"]
+    for t in names:
+        try:
+            want = [1, register_to_index(t)]
+        except HERAError:
+            want = [0]
+        except BaseException as e:  # noqa
+            spec_failures.append({"what": "register_to_index(%r) raised %s" % (t, type(e).__name__)})
+            continue
+        st["register_texts"] += 1
+        terms.append("enc_opt (register_to_index %s)" % zlist([ord(c) for c in t]))
+        metas.append(("register text", t, want))
     if model_available and terms:
         outs = coqrun.eval_cases("C10i", INT_HEADER, terms, shard=400)
         for (kind, x, want), o in zip(metas, outs):
